@@ -203,10 +203,23 @@ func vrBuild(t int) vrCase {
 		}
 		return vrCase{progs[kind], kind != 0, fmt.Sprintf("fn-type-annotation kind%d", kind)}
 	}
+	if t == 18 { // `return;` without a value in a function or closure that declares a return type
+		t1, pos, where := nd("t1", 0, 4), nd("pos", 0, len(vrPositions)-1), nd("where", 0, 1)
+		decl := " -> " + vrTypes[t1]
+		tail := "  return " + vrLits[t1] + ";\n"
+		if t1 == 4 {
+			decl, tail = "", ""
+		}
+		body := vrWrap(pos, "  if 1 < 2 { return; }") + tail
+		if where == 0 {
+			return vrCase{"fn f()" + decl + " {\n" + body + "}\n" + vrMain("  f();\n"), t1 != 4, "bare-return in fn ->" + vrTypes[t1] + " @" + vrPositions[pos]}
+		}
+		return vrCase{vrMain("  let g = fn()" + decl + " {\n" + body + "  };\n  g();\n"), t1 != 4, "bare-return in closure ->" + vrTypes[t1] + " @" + vrPositions[pos]}
+	}
 	return vrCase{vrMain("  println(1);\n"), false, "trivial"}
 }
 
-const vrTemplates = 18
+const vrTemplates = 19
 
 func VerifHarness_Rules() {
 	t := errors.VerifNdIntRange("template", 0, vrTemplates-1)
